@@ -109,7 +109,7 @@ type NodeSpec struct {
 
 type CtxSpec struct {
 	Kind       string `json:"kind,omitempty"`        // "" background | cancel | deadline | precancel | predeadline
-	DeadlineUs int64  `json:"deadline_us,omitempty"` // offset from the start of the run
+	DeadlineUs int64  `json:"deadline_us,omitempty"` // offset from the start of the run; with kind "cancel": a deadline the context carries besides (later than the explicit cancel)
 	// Impl: which Context implementation carries the cancellation. "" standard
 	// WithCancel/WithDeadline | cause (WithCancelCause / WithDeadlineCause with a
 	// custom cause: Err() is still Canceled / DeadlineExceeded) | custom (a
